@@ -10,6 +10,12 @@
 //! * `dij`   = `na` when some weight is negative, else for every source the row of the REAL
 //!             `DijkstraDist::new(&d_usize, once(s)).distances()`
 //!
+//!   fw_dist2 <[wi n warcs]> =>  panic | <rows1> <flat1> <rows2> <flat2>
+//!
+//! `fw_dist2` calls `distances()` TWICE on the same `FloydWarshall` object (the matrix is a field
+//! of the object and is not re-initialised): `rows1`/`flat1` are copied after the first call,
+//! `rows2`/`flat2` after the second.
+//!
 //! `isize::MAX` / `usize::MAX` are printed as the atom `inf`.
 #![allow(clippy::all)]
 
@@ -65,6 +71,25 @@ pub fn eval(op: &str, args: &[V]) -> Option<Vec<V>> {
             };
             Some(vec![rows, flat, bfm, dij])
         }
+        "fw_dist2" => {
+            let [d] = args else { return None };
+            let desc = Desc::parse(d)?;
+            if desc.repr != "wi" {
+                return None;
+            }
+            let digraph = desc.build_wi();
+            let n = desc.order();
+            let mut fw = FloydWarshall::new(&digraph);
+            let mut out = Vec::with_capacity(4);
+            for _ in 0..2 {
+                let dist = fw.distances();
+                out.push(V::L((0..n)
+                    .map(|u| V::L((0..n).map(|v| ent(dist[(u, v)])).collect()))
+                    .collect()));
+                out.push(V::L(dist.dist.iter().map(|&x| ent(x)).collect()));
+            }
+            Some(out)
+        }
         _ => None,
     }
 }
@@ -93,6 +118,10 @@ fn has_neg_cycle(n: usize, arcs: &BTreeMap<(usize, usize), i64>) -> bool {
 }
 
 fn show(rng: &mut Rng, n: usize, arcs: &BTreeMap<(usize, usize), i64>) -> String {
+    show_op("fw_dist", rng, n, arcs)
+}
+
+fn show_op(op: &str, rng: &mut Rng, n: usize, arcs: &BTreeMap<(usize, usize), i64>) -> String {
     let mut list: Vec<((usize, usize), i64)> = arcs.iter().map(|(&k, &w)| (k, w)).collect();
     rng.shuffle(&mut list);
     let d = Desc {
@@ -101,7 +130,100 @@ fn show(rng: &mut Rng, n: usize, arcs: &BTreeMap<(usize, usize), i64>) -> String
         arcs: list.iter().map(|&(k, _)| k).collect(),
         weights: list.iter().map(|&(_, w)| i128::from(w)).collect(),
     };
-    format!("fw_dist {}", d.to_v())
+    format!("{op} {}", d.to_v())
+}
+
+/// Scale a digraph without negative circuit to weights around `2^40 … 2^61` such that every sum
+/// the algorithms can form (`<= 2 (n-1) max|w|`) still fits `isize`; a non-negative jitter keeps
+/// the values from being multiples of the factor (raising weights never creates a negative circuit).
+fn scale_large(rng: &mut Rng, n: usize, arcs: &mut BTreeMap<(usize, usize), i64>) {
+    let maxabs = arcs.values().map(|w| w.abs()).max().unwrap_or(1).max(1);
+    let cap = (1i64 << 61) / ((n.max(2) - 1) as i64 * maxabs);
+    let e = 40 + rng.below(22);
+    let mut f = 1i64 << e;
+    if rng.chance(1, 3) {
+        f += rng.range(0, f / 2); // not a power of two
+    }
+    let f = f.min(cap);
+    for w in arcs.values_mut() {
+        *w = *w * f + if rng.chance(1, 2) { rng.range(0, 1000) } else { 0 };
+    }
+}
+
+/// Sparse digraphs of order 60..260 (row lengths around 64 / 128 / 256 cells), no negative circuit
+/// (potentials), most pairs unreachable.
+fn gen_large_order(rng: &mut Rng, n: usize) -> BTreeMap<(usize, usize), i64> {
+    let p: Vec<i64> = (0..n).map(|_| rng.range(0, 3)).collect();
+    let mut arcs = BTreeMap::new();
+    let mut add = |rng: &mut Rng, u: usize, v: usize, arcs: &mut BTreeMap<(usize, usize), i64>| {
+        if u != v {
+            let _ = arcs.insert((u, v), rng.range(0, 6) + p[u] - p[v]);
+        }
+    };
+    match rng.below(3) {
+        0 => {
+            // random sparse: about n arcs
+            for _ in 0..(n / 2 + rng.below(n)) {
+                let (u, v) = (rng.below(n), rng.below(n));
+                add(rng, u, v, &mut arcs);
+            }
+        }
+        1 => {
+            // a chain through the last vertices (long shortest paths crossing the row boundary
+            // cells n-1 / n) plus a few chords
+            let start = rng.below(n / 2);
+            for u in start..n - 1 {
+                add(rng, u, u + 1, &mut arcs);
+            }
+            for _ in 0..8 {
+                let (u, v) = (rng.below(n), rng.below(n));
+                add(rng, u, v, &mut arcs);
+            }
+        }
+        _ => {
+            // hubs: a few vertices (first, last, 63/64-th) with many in- and out-arcs
+            let hubs = [0, n - 1, 63 % n, 64 % n];
+            for _ in 0..n {
+                let h = *rng.pick(&hubs);
+                let x = rng.below(n);
+                if rng.chance(1, 2) {
+                    add(rng, h, x, &mut arcs);
+                } else {
+                    add(rng, x, h, &mut arcs);
+                }
+            }
+        }
+    }
+    arcs
+}
+
+/// Orders around the row lengths 64 / 128 (first ten, quick tier) and 192 / 256 (thorough, stress).
+const LARGE: [usize; 15] = [64, 129, 63, 128, 65, 100, 127, 130, 60, 96, 192, 256, 257, 255, 193];
+
+/// The out-of-distribution stream: large weights, repeated calls, large orders.
+fn gen_beyond(rng: &mut Rng, n_large_w: usize, n_twice: usize, orders: &[usize], emit: &mut dyn FnMut(String)) {
+    for i in 0..n_large_w {
+        let (n, mut arcs) = gen_one(rng);
+        if arcs.is_empty() {
+            continue;
+        }
+        scale_large(rng, n, &mut arcs);
+        let op = if i % 4 == 3 { "fw_dist2" } else { "fw_dist" };
+        emit(show_op(op, rng, n, &arcs));
+    }
+    for _ in 0..n_twice {
+        let (n, arcs) = gen_one(rng);
+        emit(show_op("fw_dist2", rng, n, &arcs));
+    }
+    for (i, &n) in orders.iter().enumerate() {
+        let mut arcs = gen_large_order(rng, n);
+        debug_assert!(!has_neg_cycle(n, &arcs));
+        if i % 4 == 1 && !arcs.is_empty() {
+            scale_large(rng, n, &mut arcs);
+        }
+        let op = if i % 3 == 2 { "fw_dist2" } else { "fw_dist" };
+        emit(show_op(op, rng, n, &arcs));
+    }
 }
 
 fn gen_n(rng: &mut Rng) -> usize {
@@ -211,6 +333,18 @@ fn exhaustive(rng: &mut Rng, n: usize, ws: &[i64], emit: &mut dyn FnMut(String))
 }
 
 pub fn gen(rng: &mut Rng, thorough: bool, emit: &mut dyn FnMut(String)) {
+    if crate::stress() {
+        // search mode: the most discriminating cheap cases first (negative arcs + unreachable
+        // pairs + large values), then repeated calls, then large orders, then the ordinary stream
+        exhaustive(rng, 3, &[-2, -1, 1, 3], emit);
+        let orders: Vec<usize> = (0..60).map(|i| LARGE[i % LARGE.len()]).collect();
+        gen_beyond(rng, 3_000, 2_000, &orders, emit);
+        for _ in 0..3_000 {
+            let (n, arcs) = gen_one(rng);
+            emit(show(rng, n, &arcs));
+        }
+        return;
+    }
     // (1) exhaustive small scopes
     let all: Vec<i64> = (-3..=9).collect();
     exhaustive(rng, 1, &all, emit);
@@ -226,5 +360,14 @@ pub fn gen(rng: &mut Rng, thorough: bool, emit: &mut dyn FnMut(String)) {
         let (n, arcs) = gen_one(rng);
         debug_assert!(!has_neg_cycle(n, &arcs));
         emit(show(rng, n, &arcs));
+    }
+    // (3) beyond the ordinary distribution: weights 2^40..2^61, two calls on one object,
+    //     sparse digraphs of order 60..130
+    if thorough {
+        let orders: Vec<usize> = (0..150).map(|i| LARGE[i % LARGE.len()]).collect();
+        gen_beyond(rng, 1_500, 1_500, &orders, emit);
+    } else {
+        let orders: Vec<usize> = (0..80).map(|i| LARGE[i % 10]).collect();
+        gen_beyond(rng, 150, 120, &orders, emit);
     }
 }
